@@ -132,8 +132,9 @@ static void vf_hook_pre(int kind, const volatile void* addr) {
   vf_point_ex(kind, 0);
 }
 static void vf_trace_step(const char* fn, int kind, const volatile void* addr, uintptr_t oldv, uintptr_t newv, int ok);
+static int vf_trace_tail = 0;      /* the main thread's calls after every other thread has finished are still traced (no scheduling any more) */
 static void vf_hook_post_fn(const char* fn, int kind, const volatile void* addr, uintptr_t oldv, uintptr_t newv, int ok) {
-  if (!vf_active || vf_self < 0 || vf_in_hook) return;
+  if ((!vf_active && !(vf_trace_tail && vf_in_call)) || vf_self < 0 || vf_in_hook) return;
   vf_trace_step(fn, kind, addr, oldv, newv, ok);
 }
 static int vf_hook_spurious(const volatile void* addr) {
@@ -211,5 +212,6 @@ static void vf_wait_all(void) {
   }
   vf_active = 0;
   for (int i = 1; i < vf_nth; i++) pthread_join(vf_th[i].th, NULL);
+  vf_self = 0; vf_trace_tail = 1;
 }
 #endif
